@@ -1,5 +1,6 @@
 import Goyang.Lemmas.Bridge
 import Goyang.Lemmas.BridgeRegistry
+import Goyang.Lemmas.BridgeLoad
 import Goyang.Lemmas.Find
 import Goyang.Props.C07
 import Goyang.Props.C04
@@ -144,6 +145,19 @@ theorem phaseInput_holds_loaded (ss : List Stmt) (opts : Opts) (plug : Plug)
     (s : PState) (order : List Nat) (h : phaseStart (Registry.loadAll ss).1 opts plug = some (s, order)) :
     PhaseInput (Registry.loadAll ss).1 s :=
   phaseInput_holds _ opts plug (loadedShape_loadAll ss) hpos hplain s order h
+
+/-- Loading from raw texts (`Model.loadTexts` = `Modules.Parse` per text: generic parser, AST builder,
+top-level check, `Registry.add`) produces `LoadedShape` and `ModsAreModules`, whichever texts are
+accepted or rejected: for such registries only the two predicates on the augment statements remain. -/
+theorem loadTexts_registry_shape (texts : List (List UInt8 × List UInt8)) :
+    LoadedShape (loadTexts texts).1 ∧ ModsAreModules (loadTexts texts).1 :=
+  ⟨loadedShape_loadTexts texts, modsAreModules_loadTexts texts⟩
+
+theorem phaseInput_holds_loadTexts (texts : List (List UInt8 × List UInt8)) (opts : Opts) (plug : Plug)
+    (hpos : AugPosDistinct (loadTexts texts).1) (hplain : AugArgsPlain (loadTexts texts).1)
+    (s : PState) (order : List Nat) (h : phaseStart (loadTexts texts).1 opts plug = some (s, order)) :
+    PhaseInput (loadTexts texts).1 s :=
+  phaseInput_holds _ opts plug (loadedShape_loadTexts texts) hpos hplain s order h
 
 /-! ### `NoDupNames` -/
 
